@@ -125,7 +125,7 @@ def check_list_handlers(ctx):
                 ok = _is_empty_form(arg, loopvar)
                 ctx.ob("C13.P1", q, ok, "an unknown id is answered with the empty-item form" if ok else f"unknown id is answered with `{norm(arg)[:80]}`", key="unknown-form", where=f.where)
             elif known:
-                ok = _uses_entry(arg, f"{table}[{loopvar}]", getter)
+                ok = _uses_entry(arg, f"{table}[{loopvar}]", getter) or _uses_entry(_local_entries_resolved(cfg, n, arg), f"{table}[{loopvar}]", getter)
                 ctx.ob("C13.P1", q, ok, "a known id is answered from its own table entry" if ok else f"known id is answered with `{norm(arg)[:80]}`, not derived from {table}[{loopvar}]", key="known-form", where=f.where)
             else:
                 ctx.ob("C13.P1", q, False, f"`{n.text()[:80]}` is appended without distinguishing known from unknown ids", key="branch", where=f.where)
@@ -156,12 +156,49 @@ def _is_empty_form(arg, loopvar) -> bool:
     return False
 
 
+def _local_entries_resolved(cfg, n, arg):
+    """arg with every local that stands for one definition at n (an assignment that dominates n and is not followed by
+    another binding of the name on the way to n) replaced by that definition - `entry = table[id]; {..: entry.name}` reads
+    the table entry whatever else the function calls `entry` in another loop."""
+    import copy
+
+    names = {x.id for x in ast.walk(arg) if isinstance(x, ast.Name) and isinstance(x.ctx, ast.Load)}
+    repl = {}
+    for name in names:
+        binds = [d for d in cfg.nodes if (d.kind == "stmt" and isinstance(d.ast, (ast.Assign, ast.AnnAssign, ast.AugAssign)) and any(isinstance(t, ast.Name) and t.id == name for t in rules.assigned_targets(d.ast)))
+                 or (d.kind == "iter" and any(isinstance(t, ast.Name) and t.id == name for t in ast.walk(d.ast.target)))]
+        doms = [d for d in binds if d.kind == "stmt" and isinstance(d.ast, ast.Assign) and len(d.ast.targets) == 1 and isinstance(d.ast.targets[0], ast.Name) and cfg.dominates(d, n)]
+        if len(doms) != 1:
+            continue
+        d = doms[0]
+        if any(o is not d and cfg.path_exists(d, o) and cfg.path_exists(o, n, avoid=[d]) for o in binds):
+            continue
+        repl[name] = d.ast.value
+    if not repl:
+        return arg
+
+    class Sub(ast.NodeTransformer):
+        def visit_Name(self, node):
+            if node.id in repl and isinstance(node.ctx, ast.Load):
+                return copy.deepcopy(repl[node.id])
+            return node
+
+    return ast.fix_missing_locations(Sub().visit(copy.deepcopy(arg)))
+
+
 def _uses_entry(arg, entry_text, getter) -> bool:
     """The element is `getter(entry)` (value replies) or a record whose every field reads the entry (name lists)."""
     if getter:
         return isinstance(arg, ast.Call) and call_name(arg) == getter and len(arg.args) == 1 and norm(arg.args[0]) == entry_text
+    def reads(v) -> bool:
+        if isinstance(v, ast.IfExp):
+            # `entry.x if entry.x is not None else ""` in either orientation: a test of the entry, one arm reads it, the other is a constant
+            arms = (v.body, v.orelse)
+            return entry_text in norm(v.test) and any(reads(a) for a in arms) and all(reads(a) or isinstance(a, ast.Constant) for a in arms)
+        return norm(v).startswith(entry_text + ".") or norm(v) == entry_text
+
     if isinstance(arg, ast.Dict):
-        return bool(arg.values) and all(norm(v).startswith(entry_text + ".") or norm(v) == entry_text for v in arg.values)
+        return bool(arg.values) and all(reads(v) for v in arg.values)
     return entry_text in norm(arg)
 
 
@@ -334,6 +371,15 @@ def check_alarms(ctx):
     errs = [n for n in cfg.real_nodes() if isinstance(n.ast, ast.Assign) and "ACKC5.ERROR" in norm(n.ast.value)]
     ok = any(any(t.endswith((" in self._alarms", " in self.alarms")) and not pol for t, pol in cnd.facts(cfg, n)) for n in errs)
     ctx.ob("C13.P3", f.qualname, ok, "an unknown ALID is acknowledged with an error code" if ok else "an unknown ALID is not answered with ACKC5 error", key="s5f3-unknown", where=f.where)
+    # S5F5 / S5F7: the list handlers are pure transformations of the table: where the path rules object to a spelling while
+    # both handlers have exactly the summaries of their reviewed models, the models decide
+    from .. import refmodels
+
+    refmodels.deferred(ctx, "C13.P3", ["AlarmCapability._on_s05f05", "AlarmCapability._on_s05f07"], check_alarm_lists)
+
+
+def check_alarm_lists(ctx):
+    repo = ctx.repo
     # S5F5 / S5F7: list bodies, filter, order
     for hname, (S, F) in (("_on_s05f05", (5, 6)), ("_on_s05f07", (5, 8))):
         f = repo.method("AlarmCapability", hname, inherited=False)
